@@ -38,8 +38,28 @@ def unit(plan):
         "    invariant i <= bytes@.len(), forall|k: int| 0 <= k < i ==> bytes@[k] == 32u8,\n    decreases bytes@.len() - i,",
         "    invariant i <= j <= bytes@.len(), forall|k: int| i <= k < j ==> bytes@[k] as char == marker,\n    decreases bytes@.len() - j,",
     ], keyword=r"\bwhile\b")
+    items.append("pub uninterp spec fn spec_cfd(bytes: &[u8]) -> Option<(char, usize, usize)>;   // names the classifier's result\n")
     items.append(verus_fn(sig, body, ensures=[CFD_ENS]))
     fns["code_fence_delimiter"] = "C20.classifier.code_fence_delimiter"
+    # the same function seen by its callers: its result is `spec_cfd(line)` (a name), nothing more is needed by the close test
+    items.append("""#[verifier::external_body]
+fn code_fence_delimiter_named(line: &[u8]) -> (r: Option<(char, usize, usize)>) ensures r == spec_cfd(line) { unimplemented!() }
+""")
+    # ---- is_code_fence_close (X; the trailing blank test on the rest of the line is abstracted)
+    sig2, body2 = extract_fn(src, "is_code_fence_close")
+    if not re.search(r"\(\s*line\s*:\s*&str\s*,\s*marker\s*:\s*char\s*,\s*min_len\s*:\s*usize\s*\)", sig2):
+        raise AnchorLost("is_code_fence_close signature changed")
+    sig2 = sig2.replace("line: &str", "line: &[u8]")
+    b2, n2 = re.subn(r"line\[after\.\.\]\s*\.trim_matches\(\|c\| c == ' ' \|\| c == '\\t' \|\| c == '\\r' \|\| c == '\\n'\)\s*\.is_empty\(\)", "rest_is_blank(line, after)", body2)
+    b2 = b2.replace("code_fence_delimiter(line)", "code_fence_delimiter_named(line)")
+    if n2 != 1:
+        raise AnchorLost("is_code_fence_close: trailing blank test not found")
+    items.append("""#[verifier::external_body]
+fn rest_is_blank(line: &[u8], after: usize) -> bool { unimplemented!() }
+""")
+    items.append(verus_fn(sig2, b2, ensures=[
+        "r ==> (match spec_cfd(line) { Some((m, c, j)) => m == marker && c >= min_len, None => false })"]))
+    fns["is_code_fence_close"] = "C20.classifier.is_code_fence_close"
     # ---- active-set protocol of expand_mechdown_includes_recursive (F)
     sig, body = extract_fn(src, "expand_mechdown_includes_recursive")
     stmts = vlib.split_statements(body)
@@ -48,8 +68,28 @@ def unit(plan):
         raise AnchorLost("no recursive expansion call found in expand_mechdown_includes_recursive")
     if not re.match(r"let canonical_path\s*=", stmts[0]):
         raise AnchorLost("first statement is no longer the canonicalisation of the path")
-    head_l = [st for k, st in enumerate(stmts) if 0 < k < rec[0] and "active_set" in st]
-    tail_l = [st for k, st in enumerate(stmts) if k > rec[-1] and ("active_set" in st or k == len(stmts) - 1)]
+    def escapes(st):
+        # an abstracted statement that can leave the function successfully keeps that exit (condition abstracted)
+        body_wo_closures = re.sub(r"\|[^|]*\|\s*\{", "{", st)
+        return bool(re.search(r"\breturn\s+Ok\(", body_wo_closures))
+    EXIT = "if nondet() { return Ok(Expanded { text: 0 }); }   // an early `return Ok(..)` of the abstracted part"
+    head_l, tail_l = [], []
+    for k, st in enumerate(stmts):
+        if k == 0:
+            continue
+        is_proto = ("active_set" in st and "expand_mechdown_include_tokens(" not in st) or k == len(stmts) - 1
+        if k < rec[0]:
+            if is_proto:
+                head_l.append(st)
+            elif escapes(st):
+                head_l.append(EXIT)
+        elif k > rec[0]:
+            if is_proto and k > rec[-1]:
+                tail_l.append(st)
+            elif escapes(st):
+                tail_l.append(EXIT)
+        elif escapes(st):
+            tail_l.append(EXIT)
     head, tail = "\n  ".join(head_l), "\n  ".join(tail_l)
     # error construction -> Err(IncErr::Circular)
     head2 = re.sub(r"return Err\(\s*MechError::new\(\s*GenericError\s*\{\s*msg:\s*\"Circular include detected\"\.to_string\(\),\s*\},\s*None,\s*\)\s*\.with_compiler_loc\(\),\s*\);",
@@ -62,6 +102,8 @@ pub struct Expanded { pub text: u64 }
 
 // stands for: read the file and expand its lines, possibly recursing with the same set.
 // Assumed contract = this function's own contract (modular recursion): on Ok the set is restored.
+#[verifier::external_body]
+fn nondet() -> bool { unimplemented!() }
 #[verifier::external_body]
 fn read_and_expand(canonical_path: u64, active_set: &mut HashSet<u64>) -> (r: Result<Expanded, IncErr>)
   requires old(active_set)@.contains(canonical_path),
@@ -83,7 +125,8 @@ fn expand_includes_protocol(canonical_path: u64, active_set: &mut HashSet<u64>) 
     text = "use vstd::prelude::*;\nuse std::collections::HashSet;\nverus! {\n" + "\n".join(items) + "\n} // verus!\nfn main() {}\n"
     u = VerusUnit("c20_includes", text, fns, ["canary_c20"], dropped=[
         "code_fence_delimiter: parameter `line: &str` becomes `bytes: &[u8]` and the statement `let bytes = line.as_bytes();` is dropped (the body uses nothing else of `line`); loop invariants attached by loop ordinal",
-        "expand_mechdown_includes_recursive: of its top-level statements only those that mention `active_set` are kept, in order, split at the statements that call expand_mechdown_include_tokens (the recursion); everything else (file reading, line loop, the recursion itself) is replaced by one external_body call placed where the recursion was, whose assumed contract is the function's own contract; PathBuf is a u64 identity; the canonicalize statement is dropped"])
+        "is_code_fence_close: `line: &str` becomes `&[u8]`; the final `line[after..].trim_matches(..).is_empty()` is replaced by an uninterpreted `rest_is_blank(line, after)`; the call to code_fence_delimiter is to a stand-in that only names its result",
+        "expand_mechdown_includes_recursive: an abstracted statement containing `return Ok(..)` (outside closures) is kept as `if nondet() { return Ok(..) }` at its position; of its top-level statements only those that mention `active_set` are kept, in order, split at the statements that call expand_mechdown_include_tokens (the recursion); everything else (file reading, line loop, the recursion itself) is replaced by one external_body call placed where the recursion was, whose assumed contract is the function's own contract; PathBuf is a u64 identity; the canonicalize statement is dropped"])
     for fn, on in fns.items():
         plan.ob(on, "verus", "proved", functions=[fn], what="contract of " + fn)
     plan.verus.append(u)
